@@ -242,6 +242,28 @@ def run(tier, seed, replay=None):
         if r["rc"] != 0:
             rep.oracle_failures.append({"clause": "an invocation that only defines the trait must still add that trait to the scope",
                                         "errors": PC.error_lines(r)[:3], "program": body})
+    # 4c. ONE inherent invocation with families for equally named types of sibling modules (`ma::Len<T>`, `mb::Len<T>`; legal since the helper is
+    # named by the last path segment, /repo ccb06e8): the helper names must still differ (family index), seeded change C08h
+    same = []
+    for na, nb in [("ma::Len", "mb::Len"), ("ma::Len", "ma::inner::Len"), ("self::ma::Len", "crate::mb::Len")]:
+        blocks = []
+        for ty, tag in ((na, "a"), (nb, "b")):
+            for grp in ("GA", "GB"):
+                blocks.append(f"impl<T: Disp<G = {grp}>> {ty}<T> {{ pub const NAME: &'static str = \"{tag}.{grp}\"; pub fn name(&self) -> &'static str {{ Self::NAME }} }}")
+        if rng.random() < 0.5:
+            blocks = blocks[2:] + blocks[:2]
+        prog = ("#![allow(warnings)]\npub trait Disp { type G; } pub enum GA {} pub enum GB {}\nimpl Disp for u8 { type G = GA; } impl Disp for u16 { type G = GB; }\n"
+                "pub mod ma { pub struct Len<T>(pub T); pub mod inner { pub struct Len<T>(pub T); } } pub mod mb { pub struct Len<T>(pub T); }\n"
+                "disjoint_impls::disjoint_impls! { " + " ".join(blocks) + " }\n"
+                f"fn main() {{ println!(\"{{}} {{}} {{}} {{}}\", <{na.replace('self::', '')}<u8>>::NAME, {na.replace('self::', '')}(1u16).name(), <{nb.replace('crate::', '')}<u8>>::NAME, {nb.replace('crate::', '')}(1u16).name()); }}\n")
+        same.append((na, nb, prog))
+    res = C.run_programs(so, [("q", b) for _, _, b in same])
+    for (na, nb, prog), r in zip(same, res):
+        rep.count("equally-named-types-one-invocation")
+        rep.case(("equally named types", na, nb), True)
+        if r["rc"] != 0 or r.get("stdout", "").strip() != "a.GA a.GB b.GA b.GB":
+            rep.oracle_failures.append({"clause": "families for equally named types of different modules in one inherent invocation must not collide",
+                                        "types": [na, nb], "stdout": r.get("stdout", "")[:100], "errors": PC.error_lines(r)[:3], "program": prog})
     # 5. user items named like a helper (D11)
     d11 = []
     for p in tplans[:6]:
